@@ -41,12 +41,12 @@ def ofList {α} (f : α → Json) (l : List α) : Json := .arr (l.map f).toArray
 def ofPair {α β} (f : α → Json) (g : β → Json) (p : α × β) : Json := .arr #[f p.1, g p.2]
 def ofDict {κ ν} (f : κ → Json) (g : ν → Json) (d : Dict κ ν) : Json := ofList (ofPair f g) d
 
-def errStr : Err → String
+def errStr : FSA.Err → String
   | .keyError => "KeyError"
   | .indexError => "IndexError"
   | .fuel => "fuel"
 
-def lift {α} (x : Except Err α) : R α :=
+def lift {α} (x : Except FSA.Err α) : R α :=
   match x with
   | .ok a => pure a
   | .error e => throw (errStr e)
